@@ -151,6 +151,18 @@ class ExprMixin:
         return VStr(parts[0] if len(parts) == 1 else z3.Concat(*parts))
 
     def str_of(self, v) -> VStr:
+        from .ty import VEnum
+        if isinstance(v, VEnum):
+            # str(member) / f"{member}" of an Enum is 'Class.MEMBER' (Enum.__str__; Python >= 3.11 also for str-mixin
+            # enums) unless the class is a StrEnum or defines __str__ itself -- decided on the real class
+            ci = self.repo.lookup_class(v.enum_ty.cls)
+            is_strenum = any((b.id if isinstance(b, ast.Name) else getattr(b, "attr", "")) == "StrEnum" for b in ci.bases)
+            if not is_strenum and ci.find_method("__str__", self.repo) is None and ci.find_method("__format__", self.repo) is None:
+                nm = self.enum_member_name(v)
+                return VStr(z3.Concat(z3.StringVal(ci.name + "."), nm.t))
+            if not is_strenum:
+                raise Unsupported(f"str() of a member of {ci.name}, which defines its own __str__/__format__")
+            return VStr(v.t)
         c = concrete_of(v)
         if c is not NOCONST and not isinstance(v, VConst):
             return VStr(str(c))
